@@ -722,12 +722,28 @@ def must_call_before_return(g, callee):
     blocks = set(x.block.label for x in g.calls(callee))
     if not blocks:
         return False
+    structural = True
     for e in _cfg.exit_blocks(g):
         if e not in dom:
             continue
         if not (dom[e] & blocks):
-            return False
-    return True
+            structural = False
+    if structural:
+        return True
+    # "rc = CONTINUE; while (rc == CONTINUE) { tok = yylex(); ... }": the first test of the loop condition is decided
+    # by the initial value, which only a path-sensitive look sees
+    try:
+        ex = sym.Explorer([g.module], max_visits=2, max_paths=5000)
+        n = 0
+        # stop where the call is: only paths that get to a return WITHOUT having passed it are of interest
+        for p in ex.explore(g, stop=sorted(blocks)):
+            if p.end == 'ret':
+                return False
+            if p.end == 'stop':
+                n += 1
+        return n > 0
+    except Exception:
+        return False
 
 
 def loop_signature(f, h, body):
